@@ -105,6 +105,10 @@ PROBES = [
      'int main(void)\n{\n\tout_l((p == 0) + 2 * (0 == p) + 4 * ((void *)0 != p) + 8 * (z == (void *)0) + 16 * ((int *)0 == z));\n'
      '\tout_l((v == p) + 2 * (p == v) + 4 * (v != q) + 8 * (q > p) + 16 * (p >= q) + 32 * (&a[4] > q));\n\tfp = fn;\n\tout_l((fp == fn) + 2 * (fp != 0) + 4 * (0 == fp) + 8 * (fn == fp));\n'
      '\tout_l((q - p) * 10 + (p - q) + ((char *)q - (char *)p));\n\tout_l(!p + !z * 2 + !!v * 4 + (p && z) * 8 + (p || z) * 16);\n\treturn 0;\n}\n'),
+    ('enum-typed-objects', 'objects of an enumeration type whose compatible type is signed behave as signed integers (negative values in comparison, division, shifts, conversion to long/double)',
+     'void out_l(long);\nvoid out_d(double);\nenum tone { LOW = -3, MID = 0, HIGH = 3 };\nenum big { NEG = -5000000000, POS = 5 };\nenum tone t = LOW;\nenum big b = NEG;\n'
+     'long widen(enum tone x) { return x; }\nint main(void)\n{\n\tenum tone u = t;\n\tout_l(widen(t));\n\tout_l(t < MID);\n\tout_l(t / 2);\n\tout_l(t >> 1);\n\tout_l(t % 2);\n\tout_d(t);\n\tout_l((long)t * 2);\n'
+     '\tout_l(b < 0);\n\tout_l(b / 1000);\n\tu = HIGH;\n\tout_l(u - t);\n\tout_l(-t);\n\tout_l(t < u);\n\treturn 0;\n}\n'),
     (K_COPY_PACKED, 'assignment of a packed struct with an _Alignas member (size 5, alignment 4) copies 8 bytes: access beyond both objects',
      'void out_l(long);\nstruct __attribute__((packed)) P { _Alignas(4) int a; char b; };\nstruct P g1 = { 7, 8 }, g2;\n'
      'int main(void)\n{\n\tstruct P *p = &g2, *q = &g1;\n\t*p = *q;\n\tout_l(g2.a);\n\tout_l(g2.b);\n\treturn 0;\n}\n'),
@@ -436,6 +440,11 @@ def semantic(ctx, refs, qexe, stats, samples):
         stats.setdefault('probes', {})[key] = st
         if st == 'mismatch':
             ctx.violation(what + ' [' + detail + ']', '/* cproc-qbe -t %s ; %s */\n%s' % (tg, detail.replace('*/', '* /'), src), 'c', key=key)
+        elif st == 'rejected':
+            # the probes are valid programs: a rejection (or a crash of the compiler) is a finding as well
+            ctx.violation(what + ' [valid probe program not compiled: ' + str(detail)[:200] + ']', '/* cproc-qbe -t %s */\n%s' % (tg, src), 'c', key=key)
+        elif st != 'ok':
+            ctx.broken('correspondence', 'directed probe %s could not be judged' % key, '%s: %s' % (st, str(detail)[:300]))
 
 
 def classify(src):
